@@ -130,6 +130,12 @@ def make_case(chk, rng, i):
     if uses_reject:
         rules[0]["act"] = [("if", 1, 100, 50, [("reject",)])]
         case["opts"]["uses_reject"] = True
+    # some rules get a '|' action (same action as the next rule); the warning for such a rule
+    # must still name its own line.  Not next to trailing context ('|' makes it variable).
+    for k in range(len(rules) - 1):
+        if rules[k].get("trail") is None and rules[k + 1].get("trail") is None and \
+                rules[k]["act"] == [] and rng.chance(25):
+            rules[k]["act"] = "|"
     return g, case
 
 
